@@ -1203,4 +1203,130 @@ theorem C13_tick_raises_on_configured_fixing :
     ((({} : Node).installSvc { name := "x", port := 1, proto := 1, guarded := true } [] .fixing 2).step .tick).2 = .raised := by
   decide
 
+/-! ## 6. ports and payloads -/
+
+/-- **An open port always has a RUNNING owner**: every port `get_open_ports` reports is the port, or a listening
+port, of a RUNNING object that owns a `port_protocol_mapping` entry.  Software that is not running keeps no port open. -/
+theorem C13_open_port_has_running_owner (n : Node) (p : Nat) (h : p ∈ n.openPorts) :
+    ∃ k u m, (k, u) ∈ n.portMap ∧ n.isRunning u = true ∧ n.metaOf u = some m ∧ (p = m.cls.port ∨ p ∈ m.listen) := by
+  unfold Node.openPorts at h
+  simp only [List.mem_flatMap] at h
+  obtain ⟨⟨k, u⟩, hmem, hp⟩ := h
+  by_cases hr : n.isRunning u = true
+  · simp only [hr, if_true] at hp
+    cases hm : n.metaOf u with
+    | none => simp [hm] at hp
+    | some m =>
+      simp only [hm, List.mem_cons] at hp
+      exact ⟨k, u, m, hmem, hr, hm, hp⟩
+  · simp [hr] at hp
+
+/-- conversely, a RUNNING object that owns a port-map entry has its port and its listening ports open -/
+theorem C13_running_owner_ports_open (n : Node) (k : Nat × Nat) (u : Nat) (m : Meta) (hk : (k, u) ∈ n.portMap)
+    (hr : n.isRunning u = true) (hm : n.metaOf u = some m) :
+    m.cls.port ∈ n.openPorts ∧ ∀ p ∈ m.listen, p ∈ n.openPorts := by
+  unfold Node.openPorts
+  simp only [List.mem_flatMap]
+  refine ⟨⟨(k, u), hk, by simp [hr, hm]⟩, fun p hp => ⟨(k, u), hk, by simp [hr, hm, hp]⟩⟩
+
+/-- "every RUNNING installed software has its port open" — NOT claimed by C13 and false of the code: two classes with
+the same (port, protocol) share one `port_protocol_mapping` slot and only the later-installed one counts. -/
+def RunningImpliesOpen : Prop :=
+  ∀ ops : List Op, let n := ({} : Node).run ops
+    ∀ name u m, (name, u) ∈ n.software → n.isRunning u = true → n.metaOf u = some m → m.cls.port ∈ n.openPorts
+
+/-- web-server (80/tcp, RUNNING) installed before web-browser (80/tcp, CLOSED): port 80 is reported closed -/
+theorem C13_running_port_shadowed : ¬ RunningImpliesOpen := by
+  intro h
+  have := h [.installSvc { name := "web-server", port := 80, proto := 1, guarded := true } [] .good 2,
+             .installApp { name := "web-browser", port := 80, proto := 1, guarded := false, ctorRuns := true } [] .good 2]
+    "web-server" 0 { uid := 0, cls := { name := "web-server", port := 80, proto := 1, guarded := true }, listen := [] }
+    (by decide) (by decide) (by decide)
+  revert this
+  decide
+
+/-- **`not_running_no_payload`, partial.**  Whatever is delivered (`receive_payload_from_session_manager` with any port,
+protocol, payload kind, in any node state): an object gets past its running-guard only if the node is ON and the
+object is RUNNING — *or its class has no guard at all* (the regenerated table `Gen.Software.classes`, finding F-23). -/
+theorem C13_payload_guard_partial (n : Node) (port proto : Nat) (scan : Bool) (l : List (Nat × Bool))
+    (h : n.deliverOut port proto scan = .recv l) (u : Nat) (hu : (u, true) ∈ l) :
+    (n.isOn = true ∧ n.isRunning u = true) ∨ ∃ m, n.metaOf u = some m ∧ m.cls.guarded = false := by
+  unfold Node.deliverOut at h
+  cases hr : n.receivers port proto scan with
+  | none => simp [hr] at h
+  | some us =>
+    simp only [hr, Out.recv.injEq] at h
+    subst h
+    simp only [List.mem_map, Prod.mk.injEq] at hu
+    obtain ⟨v, _, rfl, hh⟩ := hu
+    unfold Node.handles at hh
+    cases hm : n.metaOf v with
+    | none => simp [hm] at hh
+    | some m =>
+      simp only [hm] at hh
+      cases hg : m.cls.guarded
+      · exact Or.inr ⟨m, rfl, hg⟩
+      · simp only [hg, if_true, Bool.and_eq_true] at hh
+        exact Or.inl hh
+
+/-- the full statement: only RUNNING software gets a payload past its guard -/
+def FullPayload : Prop :=
+  ∀ (ops : List Op) (port proto : Nat) (scan : Bool) (l : List (Nat × Bool)), let n := ({} : Node).run ops
+    n.deliverOut port proto scan = .recv l → ∀ u, (u, true) ∈ l → n.isRunning u = true
+
+/-- full strength when every class on the node has the guard -/
+theorem C13_payload_guard_of_all_guarded (n : Node) (hg : ∀ u m, n.metaOf u = some m → m.cls.guarded = true)
+    (port proto : Nat) (scan : Bool) (l : List (Nat × Bool)) (h : n.deliverOut port proto scan = .recv l)
+    (u : Nat) (hu : (u, true) ∈ l) : n.isOn = true ∧ n.isRunning u = true := by
+  rcases C13_payload_guard_partial n port proto scan l h u hu with h1 | ⟨m, hm, hf⟩
+  · exact h1
+  · rw [hg u m hm] at hf; cases hf
+
+/-- **Counterexample (F-23)**, the witness the rig replays: terminal (no guard) STOPPED, an ftp-server listening on 22
+is RUNNING; a payload for 22/tcp is handed to the STOPPED terminal, which processes it. -/
+theorem C13_payload_counterexample : ¬ FullPayload := by
+  intro h
+  have := h [.installSvc { name := "terminal", port := 22, proto := 1, guarded := false } [] .good 2,
+             .svcReq "terminal" .stop,
+             .installSvc { name := "ftp-server", port := 21, proto := 1, guarded := true } [22] .good 2]
+    22 1 false [(0, true), (1, true)] (by decide) 0 (by decide)
+  revert this
+  decide
+
+/-- a frame for a closed port is ignored before any software sees it (`HostNode.receive_frame`) -/
+theorem C13_frame_closed_port_ignored (n : Node) (h : Hdr) (scan : Bool) (hi : h ≠ .icmp)
+    (hp : ∀ p, h.dstPort = some p → p ∉ n.openPorts) (hs : scan = false) :
+    n.step (.frame h scan) = (n, .ignored) := by
+  have : n.frameAccepted h scan = false := by
+    unfold Node.frameAccepted
+    subst hs
+    cases h with
+    | icmp => exact absurd rfl hi
+    | tcp p => have := hp p rfl; simp [Hdr.dstPort, this]
+    | udp p => have := hp p rfl; simp [Hdr.dstPort, this]
+  simp [Node.step, this]
+
+/-- … and an accepted frame is one that is ICMP, or whose port has a RUNNING owner, or a port scan with nmap RUNNING -/
+theorem C13_frame_accepted_only_if (n : Node) (h : Hdr) (scan : Bool) (ha : n.frameAccepted h scan = true) :
+    h = .icmp ∨ (∃ p, h.dstPort = some p ∧ p ∈ n.openPorts) ∨
+    (scan = true ∧ ∃ u i, dget "nmap" n.software = some u ∧ n.findApp u = some i ∧ i.a.st = .running) := by
+  unfold Node.frameAccepted at ha
+  simp only [Bool.or_eq_true, Bool.and_eq_true, beq_iff_eq] at ha
+  rcases ha with (h1 | h2) | h3
+  · exact Or.inl h1
+  · right; left
+    cases hd : h.dstPort with
+    | none => simp [hd] at h2
+    | some p => exact ⟨p, rfl, by simpa [hd] using h2⟩
+  · right; right
+    refine ⟨h3.2, ?_⟩
+    have h4 := h3.1
+    cases hn : dget "nmap" n.software with
+    | none => simp [hn] at h4
+    | some u =>
+      simp only [hn] at h4
+      cases hf : n.findApp u with
+      | none => simp [hf] at h4
+      | some i => exact ⟨u, i, rfl, hf, by simpa [hf] using h4⟩
+
 end Primaite.C13
